@@ -2,6 +2,8 @@
 # Like mutant_run.sh but for the C01 (instrumented) workspace.
 # usage: tools/mutant_run_ct.sh <name> <patch.diff|-> [args for c01 binary...]
 set -e
+# VERIF_SRC: take the harness sources from another checkout of /verif (e.g. a worktree of an older commit)
+src=${VERIF_SRC:-/verif}
 name=$1; patch=$2; shift 2
 base=/tmp/mw/$name
 if [ ! -d $base/repo ]; then
@@ -11,12 +13,12 @@ if [ ! -d $base/repo ]; then
 fi
 rm -rf $base/harness $base/harness-ct
 mkdir -p $base/harness $base/harness-ct/.cargo
-cp -r /verif/harness/Cargo.toml /verif/harness/Cargo.lock /verif/harness/vmodel $base/harness/
-cp -r /verif/harness-ct/Cargo.toml /verif/harness-ct/Cargo.lock /verif/harness-ct/ctwrap /verif/harness-ct/c01 $base/harness-ct/
+cp -r $src/harness/Cargo.toml $src/harness/Cargo.lock $src/harness/vmodel $base/harness/
+cp -r $src/harness-ct/Cargo.toml $src/harness-ct/Cargo.lock $src/harness-ct/ctwrap $src/harness-ct/c01 $base/harness-ct/
 printf '[net]\noffline = true\n[build]\ntarget-dir = "%s/target-ct"\nrustc-wrapper = "/verif/bin/rustc-sancov"\n' $base > $base/harness-ct/.cargo/config.toml
 sed -i "s#path = \"/repo\"#path = \"$base/repo\"#" $base/harness-ct/Cargo.toml $base/harness/Cargo.toml
 cd $base/harness-ct
 cargo build --offline -q --release -p c01 2>&1 | grep -E "^error" -A8 || true
 mkdir -p $base/vroot
-[ -f $base/vroot/known_findings.json ] || cp /verif/known_findings.json $base/vroot/
-VERIF_ROOT=$base/vroot $base/target-ct/release/c01 "$@"
+[ -f $base/vroot/known_findings.json ] || cp $src/known_findings.json $base/vroot/
+VERIF_REPO=$base/repo VERIF_ROOT=$base/vroot $base/target-ct/release/c01 "$@"
